@@ -282,8 +282,11 @@ func c09Body(script []string, base, max time.Duration, stop c09Stop, outNet **en
 			if lastOK >= 0 {
 				k = i - lastOK
 			}
-			want := base << uint(k)
-			if want > max || want <= 0 {
+			want := base // base * 2^k, saturating at max (k can be large in the long-outage scenario)
+			for i := 0; i < k && want < max; i++ {
+				want *= 2
+			}
+			if want > max {
 				want = max
 			}
 			if a.endAt < 0 {
@@ -412,6 +415,24 @@ func runC09(c *Ctx) {
 		}
 	}
 	backoff(false) // scripts of length <= 3; the longer ones (thorough tier) come last
+	// a long outage: 70 consecutive failed dials (enough doublings to overflow a shifted duration),
+	// default schedule only
+	c.Bound("long-outage", "70 consecutive dial errors, then a healthy broker; (base,max) in {(1s,4s), (1s,10s)}; default schedule; every wait is at least min(base*2^k, max)")
+	for _, w := range [][2]time.Duration{{time.Second, 4 * time.Second}, {time.Second, 10 * time.Second}} {
+		w := w
+		long := make([]string, 70)
+		for i := range long {
+			long[i] = "dial-error"
+		}
+		s := &vrt.Scenario{
+			Name:    fmt.Sprintf("C09/long-outage/%v-%v/70-dial-errors", w[0], w[1]),
+			Bound:   vrt.Budget{},
+			Cfg:     vrt.Config{Horizon: int64(1200 * time.Second)},
+			Body:    c09Body(long, w[0], w[1], c09Stop{kind: "none"}, &net),
+			Observe: func() uint64 { return net.TraceHash() },
+		}
+		c.Explore(s)
+	}
 	// stop conditions: the instant is a free choice inside the scenario
 	instants := []time.Duration{-1, -2} // -1: the moment the broker accepts the first connection; -2: the moment the client reports it Active
 	for t := time.Duration(0); t <= 20*time.Second; t += 500 * time.Millisecond {
